@@ -220,6 +220,9 @@ def apply(V, fn, args, kwargs, st, node):
             return inline_call(V, fn, args, kwargs, st, node)
         if k == 'rec':
             return call_rec(V, fn, args, kwargs, st, node)
+    if isinstance(fn, SV) and V.is_live(fn):
+        V.live_effect(st, 'user:call', fn, node)
+        return V.fresh_live()
     if isinstance(fn, MCls):
         if fn.name in V.reg.constructors:
             return call_spec(V, V.reg.constructors[fn.name], None, args, kwargs, st, node)
@@ -344,7 +347,7 @@ def call_spec(V, spec, self_val, args, kwargs, st, node):
     return res
 
 
-def add_effect(V, st, label, node):
+def add_effect(V, st, label, node, operand=None):
     cur = st.ghost.get('effects')
     if cur is None:
         cur = SV(SeqT(STR), z3.Empty(sort_of(SeqT(STR))))
@@ -357,9 +360,13 @@ def add_effect(V, st, label, node):
         ok = any(label == a or (a.endswith('*') and label.startswith(a[:-1])) for a in allowed)
         if not ok:
             guard = z3.BoolVal(False)
-            if V.c.effect_guard:
-                guard = V.eval_spec_bool(V.c.effect_guard, st)
-            V.oblige(st, guard, 'effect', 'effect %s not allowed here' % label, node, assume=False)
+            eg = V.c.effect_guard
+            if isinstance(eg, dict):
+                eg = eg.get(label) or eg.get(label.split(':')[0] + ':*') or eg.get('*')
+            if eg:
+                guard = V.eval_spec_bool(eg, st, {'OPERAND': operand} if operand is not None else None)
+            V.oblige(st, guard, 'effect', 'effect %s not allowed here unless %s' % (label, eg or 'never'), node,
+                     assume=False)
 
 
 # ------------------------------------------------------------------- inline
